@@ -178,3 +178,31 @@ MANIFEST_TEXT["C19"] = {
              "symmetry, transitivity on triples and hash agreement."),
     "note": "Trusted: CPython and the edit generator (each edit changes exactly the named field).",
 }
+
+META["C09"] = {
+    "level": "exploration",
+    "rule": ("cases = expression trees over the documented grammar (signs, coefficient with/without '*', parenthesised "
+             "sums with optional factor, constant arithmetic, absolute values with optional factor, parenthesised "
+             "groups of absolute values, repeated variables and repeated absolute terms, chained <=/>=, =/==), "
+             "rendered with four spacing styles and several spellings per number (dyadic values only, so float "
+             "arithmetic is exact); all small shapes (<=2 items on the left, 1 item on the right in the quick tier, "
+             "<=2 in the thorough tier, atoms x y 2x 2y |x| |y| 2|x| 2|y| 1) are enumerated; 25% of the strings are "
+             "also mutated at token level. Accepted => z3 decides parsed conjunction <=> written relation for all "
+             "reals. Non-trivial = the string was accepted; distinct = case digests."),
+    "required": ["outcome:tree:accepted", "outcome:tree:PolyhedralSyntaxConvexException",
+                 "outcome:mutated:PolyhedralSyntaxException", "outcome:mutated:accepted",
+                 "accepted-feature:abs", "accepted-feature:pabs", "accepted-feature:par", "accepted-feature:chain",
+                 "accepted-feature:const-arith", "accepted-feature:star", "accepted-feature:op=",
+                 "accepted-feature:op==", "accepted-feature:op>=", "accepted-feature:repeated-abs-term",
+                 "accepted-feature:repeated-variable", "small_shape_cases", "history-reparse"],
+    "assumptions": [TB, "the written relation is evaluated by pvm's own tree evaluator (If-encoded absolute values, "
+                    "exact rationals); a convex relation that the grammar rejects is not a violation"],
+    "soft_s": {"quick": 200, "thorough": 3000},
+}
+MANIFEST_TEXT["C09"] = {
+    "technique": RM + "grammar-directed string generation, real parser executed, exact z3 equivalence of parsed inequalities and the written relation over all reals",
+    "text": ("Exploration with an enumerated core: every accepted string's parsed inequalities are proved equivalent "
+             "(z3, all real points) to the relation the generator wrote; rejected strings must raise the two "
+             "syntax errors; re-parsing (immediately and at the end of the session) must give identical results."),
+    "note": "Trusted: CPython, z3, the 60-line tree evaluator in pvm/checks/c09.py; numbers restricted to dyadic rationals.",
+}
